@@ -283,6 +283,20 @@ CHECKS["C19"] = (
     "DESIGN.md section 3, C19",
 )
 
+CHECKS["C21"] = (
+    "SOLV",
+    "exploration",
+    "bounded enumeration of solver configurations (formalization x cost/instantiation settings x random seed x solution prefix), every solution judged by an independent validator",
+    "The shipped CSV, XML (prefix grammar, three constraints), simple TAR and reST formalizations are solved under the settings the "
+    "repository's own tests use plus variations, for several random seeds, and the first n solutions of every run are validated by code that "
+    "shares nothing with ISLa: an own CSV record splitter (equal field counts), xml.etree (well-formedness, prefix binding, attribute "
+    "uniqueness), an own TAR header decoder (field widths, NUL padding, checksum recomputed from the raw bytes) and docutils (no warning or "
+    "error while rendering). This is a bounded exploration of a slow search, not an exhaustive statement over seeds; the evidence states "
+    "the configurations, solutions and caps.",
+    "Runs are subject to the solver's own timeout; what the solver raises is C02's business.",
+    "DESIGN.md section 3, C21",
+)
+
 NOT_YET = "check not built yet in this round (planned in DESIGN.md section 3)"
 
 
